@@ -19,7 +19,7 @@ def remoteCase (inp impl : String) : CaseOut :=
     let plan : List (List Nat) := ((kv iw "plan").getD "").splitOn "/" |>.map fun p => p.toList.map fun c => c.toNat - '0'.toNat
     let nt := (kvNat ws "targets").getD 1
     let entryOf (s j : Nat) : String :=
-      s!"s{s}m{j}<" ++ (if s % 2 = 1 then self ++ "/snd/" ++ toString s else "-")
+      s!"s{s}m{j}<" ++ (if s % 2 = 1 then (if s > 1 then s!"n{s}:1" else self) ++ "/snd/same" else "-")
     let targets := List.range nt
     let expected (t : Nat) : List String :=
       (List.range plan.length).flatMap fun s =>
